@@ -112,6 +112,15 @@ def build_unit(u, tier, wd, extra_defs=()):
     rc, out, err, _ = run(cmd, 120)
     if rc != 0:
         return None, "toolchain: goto-cc failed: " + (out + err)[-1500:], cmds
+    if u.get("plain") and u.get("assert_false_bodies"):
+        # every function without a body gets `assert(false)`: reaching any callee outside the unit is an obligation failure
+        igb = os.path.join(wd, "u.i.gb")
+        cmd = ["goto-instrument", "--generate-function-body", u["assert_false_bodies"], "--generate-function-body-options", "assert-false", gb, igb]
+        cmds.append(" ".join(cmd))
+        rc, out, err, _ = run(cmd, 300)
+        if rc != 0 or not os.path.exists(igb):
+            return None, "toolchain: goto-instrument --generate-function-body failed: " + (out + err)[-1500:], cmds
+        return igb, "", cmds
     if u.get("plain") and u.get("replace_calls"):
         igb = os.path.join(wd, "u.i.gb")
         cmd = ["goto-instrument"] + sum((["--replace-calls", "%s:%s" % (a, b)] for a, b in u["replace_calls"].items()), []) + [gb, igb]
